@@ -232,3 +232,13 @@ Definition sig_impl_ok (c : sig_case) : bool :=
          end
      end) paths.
 Definition tree_check_neg := true.  (* gotypes Index/At on the current tree: negative index rejected (true) or not (false) *)
+
+(* the frame layout itself as a specification on avo's output: parameter and result offsets and the
+   argument size are those of the Go compiler's ABI0 layout (gc/amd64 sizes, the environment model
+   above, compared with unsafe.Sizeof/Alignof/Offsetof of the real compiler on every run) *)
+Definition sig_layout_ok (c : sig_case) : bool :=
+  let '(params, results, (pobs, robs_, argsize), paths) := c in
+  let l := sig_layout params results in
+  list_eqb (fun a b => String.eqb (fst a) (fst b) && (snd a =? snd b)) (List.combine (tuple_names "arg" params) (params_off l)) pobs
+  && list_eqb (fun a b => String.eqb (fst a) (fst b) && (snd a =? snd b)) (List.combine (tuple_names "ret" results) (results_off l)) robs_
+  && (sig_bytes l =? argsize).
